@@ -1624,6 +1624,206 @@ fn run_dt_boundary(cx: &mut Ctx, pairs: &[BPair]) {
 }
 
 // ---------------------------------------------------------------------------------------------
+// family 4b' `extreme-offsets`: pairs whose LOCAL dates are 0, 1, 2 or 3 days apart (both directions) while
+// their INSTANTS are within two hours of each other, in both orders or equal
+//
+// Two offsets can be 29:59:58 apart (-14:59:59 against +14:59:59), so two date-times whose written dates are
+// TWO days apart can denote the same instant or lie in the order opposite to their dates; family 4b keeps both
+// texts within 15 h of one boundary and never writes dates more than a day apart. Here, for EVERY ordered
+// pair of writers from a grid with both ends of the map (every whole hour -14…+14, ±14:59:59, ±14:59,
+// ±14:30, ±13:59:59, ±13:45, ±12:45, the named zones of the transition table that reach ±10 h or more:
+// Pacific/Kiritimati, Pacific/Chatham, Pacific/Auckland, Pacific/Pago_Pago, Pacific/Honolulu, Australia/…, and
+// UTC) and every gap of the local dates -3…+3 days: when some pair of times of day brings the instants within
+// ±2 h, pairs with the instant of `b` later, earlier and equal (time of day of `a` at either end of what is
+// possible or anywhere in it: the earlier-dated value late in its day, the later-dated one early); when none
+// does (always for 3 days), the nearest possible pair (23:59:59… against 00:00:00…: mode `far`, a control).
+// The dates lie around turns of the year, the end of February (leap, common, century years), turns of a
+// month, or anywhere; years -200000…200000 for offsets, the span of the table for named zones.
+// Oracle: the instant from the WRITTEN fields, days-from-civil × 86400 + seconds of the day − offset (here, in
+// i128, checked against the instant the generator started from; and again by the Lean specification
+// `c15 cmp` / `c15 sub`); the twenty forms of `run_dt_boundary` (<, <=, =, >=, >, !=, a - b, b - a, in,
+// between) must all be what the order and the difference of the instants say.
+
+fn extreme_writers(zones: &[ZoneRules], thorough: bool) -> Vec<Writer> {
+  let mut ws: Vec<Writer> = vec![];
+  for h in -14..=14i64 {
+    // quick tier: the whole hours of both ends and of the middle (the thorough tier: every whole hour)
+    if thorough || h.abs() >= 9 || h.abs() <= 1 || h.abs() == 5 {
+      ws.push(Writer::Off(3600 * h));
+    }
+  }
+  for o in [53_999i64, 53_940, 52_200, 50_399, 49_500, 45_900] {
+    ws.push(Writer::Off(o));
+    ws.push(Writer::Off(-o));
+  }
+  if thorough {
+    for o in [1i64, -1, 1800, -1800, 34_200, -34_200, 20_700, 48_600, -48_600] {
+      ws.push(Writer::Off(o));
+    }
+  }
+  for (i, z) in zones.iter().enumerate() {
+    if z.name == "Etc/UTC" || z.offsets().iter().any(|o| o.abs() >= 36_000) {
+      ws.push(Writer::Named(i));
+    }
+  }
+  ws
+}
+
+/// The first day (days since 1970-01-01) of a year, of March, of a month, or any day.
+fn extreme_anchor(rng: &mut Rng, named: bool) -> (i64, &'static str) {
+  let y = if named {
+    *rng.pick(&[2012i64, 2013, 2015, 2016, 2017, 2019, 2020])
+  } else {
+    match rng.below(4) {
+      0 => *rng.pick(&[-200_000i64, -9999, -4, -1, 0, 1, 4, 100, 999, 1000, 1583, 1600, 1900, 1970, 2000, 2016, 2020, 2021, 2024, 2100, 2400, 9999, 10_000, 99_999, 200_000]),
+      1 => rng.range(-3000, 3000),
+      2 => 4 * rng.range(475, 525),
+      _ => rng.range(1990, 2030),
+    }
+  };
+  match rng.below(5) {
+    0 => (days_from_civil(y, 1, 1), "turn-of-year"),
+    1 | 2 => (days_from_civil(y, 3, 1), if is_leap(y) { "end-of-february-leap" } else { "end-of-february-common" }),
+    3 => (days_from_civil(y, rng.range(2, 12), 1), "turn-of-month"),
+    _ => {
+      let m = rng.range(1, 12);
+      (days_from_civil(y, m, rng.range(1, dim(y, m))), "any-day")
+    }
+  }
+}
+
+fn extreme_pairs(rng: &mut Rng, thorough: bool, zones: &[ZoneRules], rep: &mut Report) -> Vec<BPair> {
+  const NEAR: i64 = 7200;
+  let ws = extreme_writers(zones, thorough);
+  let mut out: Vec<BPair> = vec![];
+  let guess = |w: &Writer, day: i64| -> Option<i64> {
+    match w {
+      Writer::Off(o) => Some(*o),
+      Writer::Named(i) => {
+        let r = &zones[*i];
+        let o0 = r.off_at(day * 86_400 + 43_200 - r.initial)?;
+        r.off_at(day * 86_400 + 43_200 - o0)
+      }
+    }
+  };
+  for wa in &ws {
+    for wb in &ws {
+      let named = matches!(wa, Writer::Named(_)) || matches!(wb, Writer::Named(_));
+      for k in -3..=3i64 {
+        // deltas (instant of b minus instant of a) wanted for this combination: `None` = the nearest possible
+        let mut made_any = false;
+        let mut tries = 0;
+        let mut wanted: Vec<i8> = vec![1, -1, 0]; // sign of delta
+        while !wanted.is_empty() && tries < 12 {
+          tries += 1;
+          let sign = wanted[0];
+          let (anchor, place) = extreme_anchor(rng, named);
+          let low = anchor - rng.range(0, k.abs().max(1));
+          let day_a = if k >= 0 { low } else { low - k };
+          let (oa, ob) = match (guess(wa, day_a), guess(wb, day_a + k)) {
+            (Some(x), Some(y)) => (x, y),
+            _ => continue,
+          };
+          let dd = ob - oa;
+          // lb - la = delta + dd must lie in [k*86400 - sa, (k+1)*86400 - sa) for a time of day sa of `a`
+          let dlo = (k * 86_400 - dd - 86_399).max(-NEAR);
+          let dhi = ((k + 1) * 86_400 - dd - 1).min(NEAR);
+          let (sa, delta, mode): (i64, i64, &'static str) = if dlo <= dhi {
+            let (lo, hi) = match sign {
+              1 => (dlo.max(1), dhi),
+              -1 => (dlo, dhi.min(-1)),
+              _ => (dlo.max(0), dhi.min(0)),
+            };
+            if lo > hi {
+              // this order is not possible for this combination
+              wanted.remove(0);
+              continue;
+            }
+            let cands: Vec<i64> = [1i64, 60, 900, 1800, 3599, 3600, 3601, 7199, 7200].iter().map(|c| c * sign as i64).filter(|c| *c >= lo && *c <= hi).collect();
+            let delta = match rng.below(4) {
+              0 => lo,
+              1 => hi,
+              2 if !cands.is_empty() => *rng.pick(&cands),
+              _ => rng.range(lo, hi),
+            };
+            let x = delta + dd;
+            let (slo, shi) = ((k * 86_400 - x).max(0), ((k + 1) * 86_400 - x).min(86_400) - 1);
+            if slo > shi {
+              continue;
+            }
+            let sa = match rng.below(4) {
+              0 => slo,
+              1 => shi,
+              2 => (slo + 60 * rng.range(0, 59)).min(shi),
+              _ => rng.range(slo, shi),
+            };
+            let local_sign = if k != 0 { k.signum() } else { x.signum() };
+            (sa, delta, if delta == 0 { "eq" } else if delta.signum() != local_sign { "opp" } else { "same" })
+          } else {
+            // no times of day bring the instants within two hours: the nearest ones
+            wanted.clear();
+            let small = |rng: &mut Rng| match rng.below(4) {
+              0 => 0,
+              1 => rng.range(0, 59),
+              2 => 60 * rng.range(0, 59),
+              _ => rng.range(0, 7199),
+            };
+            let (sa, sb) = if k * 86_400 > dd { (86_399 - small(rng), small(rng)) } else { (small(rng), 86_399 - small(rng)) };
+            (sa, k * 86_400 + sb - sa - dd, "far")
+          };
+          if !thorough && mode == "far" && made_any {
+            continue;
+          }
+          let ta = day_a * 86_400 + sa - oa;
+          let (na, nb) = match (mode, rng.below(3)) {
+            ("eq", 0) => {
+              let n = boundary_ns(rng);
+              (n, n)
+            }
+            ("eq", _) => (0, 0),
+            _ => (boundary_ns(rng), boundary_ns(rng)),
+          };
+          let (a, b) = match (write_instant(ta, na, wa, zones), write_instant(ta + delta, nb, wb, zones)) {
+            (Some(a), Some(b)) => (a, b),
+            _ => continue,
+          };
+          // the instant from the written fields (independent of the way the texts were made), in i128
+          let inst = |w: &Written, o: i64| -> i128 { days_from_civil(w.dt.y, w.dt.m, w.dt.d) as i128 * 86_400 + (w.dt.h * 3600 + w.dt.mi * 60 + w.dt.s) as i128 - o as i128 };
+          let (fa, fb) = (inst(&a, a.table_offset.unwrap_or(oa)), inst(&b, b.table_offset.unwrap_or(ob)));
+          if fa != a.t as i128 || fb != b.t as i128 {
+            rep.notes.push(format!("extreme-offsets: the instant of the written fields is not the generator's: {:?} {:?}", a, b));
+            continue;
+          }
+          // a named zone must have had the guessed offset: the dates are the wanted number of days apart
+          let gap = days_from_civil(b.dt.y, b.dt.m, b.dt.d) - days_from_civil(a.dt.y, a.dt.m, a.dt.d);
+          if gap != k || a.table_offset.unwrap_or(oa) != oa || b.table_offset.unwrap_or(ob) != ob {
+            continue;
+          }
+          if mode != "far" {
+            wanted.remove(0);
+          }
+          made_any = true;
+          rep.hit(&format!("extreme-days-apart:{:+}:{}", k, mode));
+          rep.hit(&format!("extreme-dates:{}", place));
+          if a.dt.y != b.dt.y {
+            rep.hit("extreme-texts:years-differ");
+          } else if a.dt.m != b.dt.m {
+            rep.hit("extreme-texts:months-differ");
+          }
+          if (a.dt.m, a.dt.d) == (2, 29) || (b.dt.m, b.dt.d) == (2, 29) {
+            rep.hit("extreme-texts:leap-day");
+          }
+          let lit_ok = |x: &Dt| (1000..=9999).contains(&x.y.abs());
+          let form = if lit_ok(&a.dt) && lit_ok(&b.dt) { rng.below(3) as u8 } else { 0 };
+          out.push(BPair { kind: "extreme-offsets", mode, a, b, form });
+        }
+      }
+    }
+  }
+  out
+}
+
+// ---------------------------------------------------------------------------------------------
 // family 4c `local-props`: every property of a date-time whose LOCAL date is not its UTC date
 //
 // A date and time value has the year, month, day, weekday, hour, minute and second of the date and time that
@@ -2545,6 +2745,11 @@ fn run_inner(cfg: &Cfg) -> Report {
     let bp = boundary_pairs(&mut brng, thorough, &zones);
     cx.rep.extra.insert("boundary_pairs".into(), json!(bp.len()));
     run_dt_boundary(&mut cx, &bp);
+    // ---- local dates 0…3 days apart, instants within two hours: every pair of extreme offsets (own random stream)
+    let mut xrng = Rng::new(cfg.seed ^ 0x0E87_0FF5);
+    let xp = extreme_pairs(&mut xrng, thorough, &zones, cx.rep);
+    cx.rep.extra.insert("extreme_offset_pairs".into(), json!(xp.len()));
+    run_dt_boundary(&mut cx, &xp);
   }
 
   // ---- every property of date-times whose local date is not their UTC date (own random stream)
